@@ -4,7 +4,8 @@ Ops: tokenize, needs_quotes, emit_value, ... (see `handle`).  The per-case `env`
 every external value (Unicode classes, NFC, float reprs) the harness obtained from CPython.
 -/
 import Lean.Data.Json
-import Octave.Model.Lexer
+import Octave.Model.ParserTop
+import Octave.Model.Emitter
 open Lean Octave
 
 def S (s : Str) : Json := Json.str (String.ofList s)
@@ -65,7 +66,108 @@ def excJson : Exc → Json
   | .lexer code l c => Json.arr #["LexerError", S code, l, c]
   | .parser code l c => Json.arr #["ParserError", S code, l, c]
   | .py cls => Json.arr #[S cls]
+  | .unsupported w => Json.arr #["MODEL_UNSUPPORTED", S w]
   | .fuel => Json.arr #["MODEL_OUT_OF_FUEL"]
+
+/-! ### AST <-> JSON -/
+
+def optJ : Option Str → Json | some s => S s | none => Json.null
+
+partial def valueJson : Value → Json
+  | .null => Json.null
+  | .bool b => Json.bool b
+  | .int i => Json.mkObj [("i", toString i)]
+  | .float r => Json.mkObj [("f", S r)]
+  | .str s => Json.mkObj [("s", S s)]
+  | .list items => Json.mkObj [("l", Json.arr (items.map valueJson).toArray)]
+  | .imap pairs => Json.mkObj [("m", Json.arr (pairs.map fun (k, v) => Json.arr #[S k, valueJson v]).toArray)]
+  | .holo raw => Json.mkObj [("h", S raw)]
+  | .zone c t m => Json.mkObj [("z", Json.mkObj [("c", S c), ("t", optJ t), ("m", S m)])]
+  | .absent => Json.mkObj [("absent", true)]
+
+partial def nodeJson : Node → Json
+  | .assign k v l c lead tr => Json.mkObj [("a", Json.mkObj [("k", S k), ("v", valueJson v), ("ln", l), ("col", c),
+      ("lead", Json.arr (lead.map S).toArray), ("trail", optJ tr)])]
+  | .block k ch l c lead tg => Json.mkObj [("b", Json.mkObj [("k", S k), ("ch", Json.arr (ch.map nodeJson).toArray), ("ln", l), ("col", c),
+      ("lead", Json.arr (lead.map S).toArray), ("target", optJ tg)])]
+  | .sect id k ann ch l c lead => Json.mkObj [("sec", Json.mkObj [("id", S id), ("k", S k), ("ann", optJ ann),
+      ("ch", Json.arr (ch.map nodeJson).toArray), ("ln", l), ("col", c), ("lead", Json.arr (lead.map S).toArray)])]
+  | .comment t => Json.mkObj [("c", S t)]
+
+def metaValJson : MetaVal → Json
+  | .val v => Json.mkObj [("v", valueJson v)]
+  | .dict kv => Json.mkObj [("d", Json.arr (kv.map fun (k, v) => Json.arr #[S k, valueJson v]).toArray)]
+
+def metaJson (m : List (Str × MetaVal)) : Json := Json.arr (m.map fun (k, v) => Json.arr #[S k, metaValJson v]).toArray
+
+def docJson (d : Document) : Json :=
+  Json.mkObj [("name", S d.name), ("meta", metaJson d.metaKv), ("sep", d.hasSeparator),
+    ("sections", Json.arr (d.sections.map nodeJson).toArray), ("gv", optJ d.grammarVersion),
+    ("fm", optJ d.rawFrontmatter), ("trailing", Json.arr (d.trailingComments.map S).toArray)]
+
+def strOf (j : Json) : Str := match j with | .str s => s.toList | _ => []
+def optStrOf (j : Json) : Option Str := match j with | .str s => some s.toList | _ => none
+def fieldJ (j : Json) (k : String) : Json := (j.getObjVal? k).toOption.getD Json.null
+def arrOf (j : Json) : List Json := match j with | .arr a => a.toList | _ => []
+def natOf (j : Json) : Nat := (j.getNat?).toOption.getD 0
+
+partial def valueOfJson (j : Json) : Value :=
+  match j with
+  | .null => .null
+  | .bool b => .bool b
+  | _ =>
+    if let .ok (.str s) := j.getObjVal? "s" then .str s.toList
+    else if let .ok (.str i) := j.getObjVal? "i" then .int (i.toInt?.getD 0)
+    else if let .ok (.str f) := j.getObjVal? "f" then .float f.toList
+    else if let .ok (.arr xs) := j.getObjVal? "l" then .list (xs.toList.map valueOfJson)
+    else if let .ok (.arr xs) := j.getObjVal? "m" then .imap (xs.toList.map fun p => match p with
+      | .arr #[k, v] => (strOf k, valueOfJson v) | _ => ([], .null))
+    else if let .ok (.str h) := j.getObjVal? "h" then .holo h.toList
+    else if let .ok z := j.getObjVal? "z" then .zone (strOf (fieldJ z "c")) (optStrOf (fieldJ z "t")) (strOf (fieldJ z "m"))
+    else .absent
+
+partial def nodeOfJson (j : Json) : Node :=
+  if let .ok a := j.getObjVal? "a" then
+    .assign (strOf (fieldJ a "k")) (valueOfJson (fieldJ a "v")) (natOf (fieldJ a "ln")) (natOf (fieldJ a "col"))
+      ((arrOf (fieldJ a "lead")).map strOf) (optStrOf (fieldJ a "trail"))
+  else if let .ok b := j.getObjVal? "b" then
+    .block (strOf (fieldJ b "k")) ((arrOf (fieldJ b "ch")).map nodeOfJson) (natOf (fieldJ b "ln")) (natOf (fieldJ b "col"))
+      ((arrOf (fieldJ b "lead")).map strOf) (optStrOf (fieldJ b "target"))
+  else if let .ok s := j.getObjVal? "sec" then
+    .sect (strOf (fieldJ s "id")) (strOf (fieldJ s "k")) (optStrOf (fieldJ s "ann")) ((arrOf (fieldJ s "ch")).map nodeOfJson)
+      (natOf (fieldJ s "ln")) (natOf (fieldJ s "col")) ((arrOf (fieldJ s "lead")).map strOf)
+  else .comment (strOf (fieldJ j "c"))
+
+def metaOfJson (j : Json) : List (Str × MetaVal) :=
+  (arrOf j).map fun p => match p with
+    | .arr #[k, mv] =>
+      if let .ok v := mv.getObjVal? "v" then (strOf k, MetaVal.val (valueOfJson v))
+      else (strOf k, MetaVal.dict ((arrOf (fieldJ mv "d")).map fun q => match q with
+        | .arr #[k2, v2] => (strOf k2, valueOfJson v2) | _ => ([], .null)))
+    | _ => ([], MetaVal.val .null)
+
+def docOfJson (j : Json) : Document :=
+  { name := strOf (fieldJ j "name"), metaKv := metaOfJson (fieldJ j "meta"),
+    hasSeparator := (fieldJ j "sep" == Json.bool true), sections := (arrOf (fieldJ j "sections")).map nodeOfJson,
+    grammarVersion := optStrOf (fieldJ j "gv"), rawFrontmatter := optStrOf (fieldJ j "fm"),
+    trailingComments := (arrOf (fieldJ j "trailing")).map strOf }
+
+open Parser in
+def warningJson : Warning → Json
+  | .duplicateKey k f d all => Json.arr #["duplicate_key", S k, f, d, Json.arr (all.map fun (n : Nat) => (n : Json)).toArray]
+  | .bareFlow l c => Json.arr #["bare_flow", l, c]
+  | .patternAutoquote k v l c => Json.arr #["pattern_autoquote", S k, S v, l, c]
+  | .bareLineDropped o l c => Json.arr #["bare_line_dropped", S o, l, c]
+  | .multiWord o r ctx l c => Json.arr #["multi_word_coalesce", Json.arr (o.map S).toArray, S r, S ctx, l, c]
+  | .sourceCompile o l c => Json.arr #["source_compile_value", S o, l, c]
+  | .unclosedList l c => Json.arr #["unclosed_list", l, c]
+  | .deepNesting d t l c => Json.arr #["deep_nesting", d, t, l, c]
+  | .nestedInlineMap k l c => Json.arr #["nested_inline_map", S k, l, c]
+  | .constructorMisuse k v l c => Json.arr #["constructor_misuse", S k, S v, l, c]
+  | .constraintOutside l c => Json.arr #["constraint_outside_brackets", l, c]
+  | .chainedTension l c => Json.arr #["chained_tension", l, c]
+
+def errJ (e : Exc) : Json := Json.mkObj [("err", excJson e)]
 
 def handle (j : Json) : Json :=
   let env := envOfJson ((j.getObjVal? "env").toOption.getD (Json.mkObj []))
@@ -75,7 +177,37 @@ def handle (j : Json) : Json :=
   | .ok "tokenize" =>
     match Lexer.tokenize env (str "s") (flag "lenient") with
     | .ok (toks, reps) => Json.mkObj [("tokens", Json.arr (toks.map tokenJson).toArray), ("repairs", Json.arr (reps.map repairJson).toArray)]
-    | .error e => Json.mkObj [("err", excJson e)]
+    | .error e => errJ e
+  | .ok "parse" =>
+    match Parser.parse env (str "s") with
+    | .ok d => Json.mkObj [("doc", docJson d)]
+    | .error e => errJ e
+  | .ok "parse_warn" =>
+    match Parser.parseWithWarnings env (str "s") with
+    | .ok (d, reps, ws) => Json.mkObj [("doc", docJson d), ("repairs", Json.arr (reps.map repairJson).toArray),
+        ("warnings", Json.arr (ws.map warningJson).toArray)]
+    | .error e => errJ e
+  | .ok "parse_meta_only" =>
+    match Parser.parseMetaOnly env (str "s") with
+    | .ok m => Json.mkObj [("meta", metaJson m)]
+    | .error e => errJ e
+  | .ok "emit" =>
+    match Emitter.emit env (docOfJson (fieldJ j "doc")) with
+    | some t => Json.mkObj [("text", S t)]
+    | none => Json.mkObj [("err", Json.arr #["ValueError"])]
+  | .ok "needs_quotes" => Json.mkObj [("r", Emitter.needsQuotes (str "s"))]
+  | .ok "emit_value" =>
+    match Emitter.emitValue (valueOfJson (fieldJ j "v")) (natOf (fieldJ j "indent")) with
+    | some t => Json.mkObj [("text", S t)]
+    | none => Json.mkObj [("err", Json.arr #["ValueError"])]
+  | .ok "canon" =>
+    -- emit(parse_with_warnings(s)[0]) and the strict re-read + re-emit of that text
+    match Parser.parseWithWarnings env (str "s") with
+    | .error e => errJ e
+    | .ok (d, _, _) =>
+      match Emitter.emit env d with
+      | none => Json.mkObj [("err", Json.arr #["ValueError"])]
+      | some c1 => Json.mkObj [("text", S c1)]
   | _ => Json.mkObj [("unsupported", "op")]
 
 partial def loop (h : IO.FS.Stream) (out : IO.FS.Stream) : IO Unit := do
